@@ -132,6 +132,10 @@ def pts_tree(tier):
                 sizes = {0, Nl + 1, 4 * Nl + 3}
             for n in sorted(sizes):
                 pts.append((Nb, Yl, Yf, Ym, n))
+        # deep trees: more than 128 leaves, height caps beyond the 3-bit range (Ym = 8, 9, 255)
+        if Nb == 256 or tier == 'thorough':
+            for Ym in (8, 9, 255):
+                pts.append((Nb, 1, 1, Ym, 257 * (nb << 1) + 1))
     return pts
 
 
@@ -141,6 +145,43 @@ def run_tree(ctx, pt):
     r = ctx.attempt(lambda: mk(Nb, Nb, Yl=Yl, Yf=Yf, Ym=Ym)(M))
     cls = 'empty-message' if n == 0 else 'message'
     ctx.eq('C12/skein%d/tree/%s' % (Nb, cls), r, ('ok', RS.skein(Nb, Nb, M, Yl=Yl, Yf=Yf, Ym=Ym)))
+
+
+def pts_tweak(tier):
+    return ['TreeLevel', 'Position', 'flags', 'Type']
+
+
+def run_tweak(ctx, what):
+    """the tweak word is a 128-bit record: every field written and read back over its whole range, neighbours untouched"""
+    from crysp.skein import Tweak
+    TYPES = {'key': 0, 'cfg': 4, 'prs': 8, 'PK': 12, 'kdf': 16, 'non': 20, 'msg': 48, 'out': 63}
+    if what == 'TreeLevel':
+        for lv in range(0, 128):
+            t = Tweak(Position=(1 << 96) - 1, Type='out')
+            t.TreeLevel = lv
+            ctx.eq('C12/tweak/TreeLevel', (t.TreeLevel, t.Position, t.Type, t.BitPad, t.First, t.Final, int(t)),
+                   (lv, (1 << 96) - 1, 63, 0, 0, 0, ((1 << 96) - 1) | (lv << 112) | (63 << 120)))
+    elif what == 'Position':
+        for k in range(0, 96):
+            for p in ((1 << k), (1 << k) - 1 if k else 0):
+                t = Tweak(TreeLevel=127, Type='msg')
+                t.First = 1
+                t.Position = p
+                ctx.eq('C12/tweak/Position', (t.Position, t.TreeLevel, t.Type, t.First, int(t)), (p, 127, 48, 1, p | (127 << 112) | (48 << 120) | (1 << 126)))
+                t.Position += 32
+                ctx.eq('C12/tweak/Position', t.Position, p + 32)
+    elif what == 'flags':
+        for bp in (0, 1):
+            for fi in (0, 1):
+                for fl in (0, 1):
+                    t = Tweak(Position=5, TreeLevel=3, Type='cfg')
+                    t.BitPad, t.First, t.Final = bp, fi, fl
+                    ctx.eq('C12/tweak/flags', (t.BitPad, t.First, t.Final, int(t)), (bp, fi, fl, 5 | (3 << 112) | (bp << 119) | (4 << 120) | (fi << 126) | (fl << 127)))
+    else:
+        for name, v in TYPES.items():
+            t = Tweak(Position=(1 << 95), TreeLevel=1)
+            t.Type = name
+            ctx.eq('C12/tweak/Type', (t.Type, int(t)), (v, (1 << 95) | (1 << 112) | (v << 120)))
 
 
 def pts_ubi(tier):
@@ -180,7 +221,8 @@ def subchecks():
         Sub('arguments', pts_args, run_args, engine='P',
             bound='key in {absent, empty, 1 byte, one block, one block+1} x every subset of {prs,PK,kdf,nonce} x 2 messages'),
         Sub('tree', pts_tree, run_tree, engine='P',
-            bound='Skein-256: (Yl,Yf) in {1,2,3}^2, Ym in {2,3,4} x |M| in {0,1,Nl-1,Nl,Nl+1,2Nl,4Nl+3, enough leaves to hit the Ym cap}; 3 shapes x 3 sizes for 512/1024 (thorough: all 27 shapes x 8 sizes)'),
+            bound='Skein-256: (Yl,Yf) in {1,2,3}^2, Ym in {2,3,4} x |M| in {0,1,Nl-1,Nl,Nl+1,2Nl,4Nl+3, enough leaves to hit the Ym cap}; 3 shapes x 3 sizes for 512/1024 (thorough: all 27 shapes x 8 sizes); deep trees of 258 leaves with Ym in {8,9,255}'),
+        Sub('tweak-fields', pts_tweak, run_tweak, engine='D', bound='Tweak record: TreeLevel 0..127, Position 2^k and 2^k-1 for k<96 (+= 32), all 8 flag combinations, all 8 types; written, read back, whole word compared'),
         Sub('ubi-positions', pts_ubi, run_ubi, engine='H',
             bound='UBI started at tweak position 2^32-Nb/8, 2^32-1, 2^64-Nb/8, 2^64-1, 2^95 with 1..3 blocks, and at 2^k-Nb/8 for every k in 8..95 with 2 blocks and 3 tail lengths vs the reference UBI started at the same position'),
     ]
